@@ -37,7 +37,8 @@ def cases(tier, seed):
             for bs in sorted(set([1, 2, 3, 4, 8, N, N + 3])):
                 for shuffle in (False, True):
                     out.append(dict(kind="roundtrip", ds=kind, N=N, bs=bs, shuffle=shuffle, s=rnd.randrange(10**6), env=rnd.choice(["cvrp", "tsp", "op", "pdp"]),
-                                    via_module=(rnd.random() < 0.25), extra_dtype=(rnd.choice(["float32", "int64", "float64", "bool"]) if "extra" in kind else "float32")))
+                                    via_module=(rnd.random() < 0.25), extra_dtype=(rnd.choice(["float32", "int64", "float64", "bool"]) if "extra" in kind else "float32"),
+                                    key=(rnd.choice(["extra", "extra", "bl_val", "due"]) if "+extra" in kind else "extra")))
     for env in ("tsp", "cvrp", "op"):
         for N in ((5, 12, 21) if q else (5, 12, 21, 40)):
             for bs_bl in (4, 7, 64):
